@@ -377,6 +377,7 @@ func conc(c *Ctx) {
 					if res.Found && res.OK {
 						if !bytes.Equal(res.Data, b.Data) {
 							s.Violate("C07.whole", "disk.Get/cas", "read of %s returned %d bytes that are not the blob (%d bytes)", b.ID, len(res.Data), len(b.Data))
+							s.Violate("C02.exact", "conc/cas", "a successful read of %s returned %d bytes that are not the blob (%d bytes)", b.ID, len(res.Data), len(b.Data))
 						}
 						if res.Size != b.Size() {
 							s.Violate("C07.whole", "disk.Get/cas", "read of %s reported size %d", b.ID, res.Size)
